@@ -1,8 +1,135 @@
 import PymtlVerif.Driver.Sexp
-/-! Handler `tc` (stub: not built yet). -/
+import PymtlVerif.Model.TC
+import PymtlVerif.Model.PyEval
+import PymtlVerif.Model.TCSpec
+/-! Handler `tc`: executable face of `Model/TC.lean`, `Model/PyEval.lean`, `Model/TCSpec.lean` (C10). -/
 namespace PV.Driver.Tc
-open PV
+open PV PV.TC PV.Bits
 
-def handle (_args : List Sexp) : Option String := none
+def uop? : String → Option UOp
+  | "inv" => some .inv | "neg" => some .neg | _ => none
+
+def op? : String → Option Op
+  | "add" => some .add | "sub" => some .sub | "mul" => some .mul | "band" => some .band
+  | "bor" => some .bor | "bxor" => some .bxor | "mod" => some .mod | "shl" => some .shl
+  | "shr" => some .shr | _ => none
+
+def cmpop? : String → Option CmpOp
+  | "eq" => some .eq | "ne" => some .ne | "lt" => some .lt | "le" => some .le
+  | "gt" => some .gt | "ge" => some .ge | _ => none
+
+def rop? : String → Option ROp
+  | "and" => some .rand | "or" => some .ror | "xor" => some .rxor | _ => none
+
+def extk? : String → Option ExtK
+  | "zext" => some .zext | "sext" => some .sext | "trunc" => some .trunc | _ => none
+
+partial def expr? : Sexp → Option Expr
+  | .list [.atom "sig", x, w] => do some (.sig (← x.nat?) (← w.nat?))
+  | .list [.atom "num", v] => do some (.num (← v.nat?))
+  | .list [.atom "lv", i] => do some (.lv (← i.nat?))
+  | .list [.atom "tmp", t] => do some (.tmp (← t.nat?))
+  | .list [.atom "un", .atom op, e] => do some (.un (← uop? op) (← expr? e))
+  | .list [.atom "bin", .atom op, l, r] => do some (.bin (← op? op) (← expr? l) (← expr? r))
+  | .list [.atom "cmp", .atom op, l, r] => do some (.cmp (← cmpop? op) (← expr? l) (← expr? r))
+  | .list [.atom "ite", c, t, f] => do some (.ite (← expr? c) (← expr? t) (← expr? f))
+  | .list [.atom "cast", n, e] => do some (.cast (← n.nat?) (← expr? e))
+  | .list [.atom "ext", .atom k, ty, e, n] => do some (.ext (← extk? k) (← ty.bool?) (← expr? e) (← n.nat?))
+  | .list [.atom "red", .atom op, e] => do some (.red (← rop? op) (← expr? e))
+  | .list [.atom "cat", l, r] => do some (.cat (← expr? l) (← expr? r))
+  | .list [.atom "idx", x, w, i] => do some (.idx (← x.nat?) (← w.nat?) (← expr? i))
+  | .list [.atom "slc", x, w, lo, hi] => do some (.slc (← x.nat?) (← w.nat?) (← expr? lo) (← expr? hi))
+  | _ => none
+
+partial def stmt? : Sexp → Option Stmt
+  | .list [.atom "skip"] => some .skip
+  | .list [.atom "seq", a, b] => do some (.seq (← stmt? a) (← stmt? b))
+  | .list [.atom "asg", t, e] => do some (.asg (← expr? t) (← expr? e))
+  | .list [.atom "tasg", t, e] => do some (.tasg (← t.nat?) (← expr? e))
+  | .list [.atom "ifs", c, b, o] => do some (.ifs (← expr? c) (← stmt? b) (← stmt? o))
+  | .list [.atom "for", i, a, b, c, body] => do
+      some (.for_ (← i.nat?) (← a.int?) (← b.int?) (← c.int?) (← stmt? body))
+  | _ => none
+
+def val? : Sexp → Option Val
+  | .list [.atom "b", n, v] => do some (.bits ⟨← n.nat?, ← v.nat?⟩)
+  | .list [.atom "i", k] => do some (.int (← k.int?))
+  | _ => none
+
+def pair? {α β : Type} (f : Sexp → Option α) (g : Sexp → Option β) : Sexp → Option (α × β)
+  | .list [a, b] => do some (← f a, ← g b)
+  | _ => none
+
+def rho? : Sexp → Option Rho
+  | .list [.list sigs, .list lvs, .list tmps] => do
+      some ⟨← sigs.mapM (pair? Sexp.nat? Sexp.nat?), ← lvs.mapM (pair? Sexp.nat? Sexp.int?),
+            ← tmps.mapM (pair? Sexp.nat? val?)⟩
+  | _ => none
+
+def showAnn (a : Ann) : String :=
+  s!"{a.w} {b2s a.ex} " ++ (match a.val with | some v => toString v | none => "n")
+
+def showAT : AT → String
+  | .leaf a => s!"(L {showAnn a})"
+  | .idx a k => s!"(I {showAnn a} {showAT k})"
+  | .n1 a k => s!"(U {showAnn a} {showAT k})"
+  | .n2 a k1 k2 => s!"(B {showAnn a} {showAT k1} {showAT k2})"
+  | .ite a c t f => s!"(T {showAnn a} {showAT c} {showAT t} {showAT f})"
+
+def showAS : AS → String
+  | .skip => "(skip)"
+  | .seq a b => s!"(seq {showAS a} {showAS b})"
+  | .asg tt te => s!"(asg {showAT tt} {showAT te})"
+  | .tasg a te => s!"(tasg ({showAnn a}) {showAT te})"
+  | .ifs tc b o => s!"(ifs {showAT tc} {showAS b} {showAS o})"
+  | .for_ w b => s!"(for {w} {showAS b})"
+
+def showTErr : TErr → String
+  | .type => "type" | .syntax => "syntax" | .crash => "crash"
+
+def showVal : Val → String
+  | .bits b => s!"(b {b.n} {b.v})"
+  | .int k => s!"(i {k})"
+
+def showPR : PR → String
+  | .ok v => showVal v
+  | .error e => s!"(err {e.pyClass})"
+
+def dedupSigs (xs : List (Nat × Nat)) : List (Nat × Nat) :=
+  let keys := (xs.map (·.1)).eraseDups
+  let ks := keys.toArray.qsort (· < ·) |>.toList
+  ks.filterMap (fun k => (xs.lookup k).map (fun v => (k, v)))
+
+def handle (args : List Sexp) : Option String :=
+  match args with
+  | [.atom "check", s] => do
+      let s ← stmt? s
+      match checkBlock s with
+      | .error e => some s!"reject {showTErr e}"
+      | .ok (_, a) =>
+        let iss := (issuesS Env.empty s).eraseDups.map Issue.name
+        some s!"ok {showAS a} ({" ".intercalate iss})"
+  | [.atom "evalx", r, e] => do
+      let ρ ← rho? r
+      let e ← expr? e
+      some ("(" ++ " ".intercalate ((subs e).map (fun x => showPR (evalPy ρ x))) ++ ")")
+  | [.atom "exec", r, s] => do
+      let ρ ← rho? r
+      let s ← stmt? s
+      match execS s ρ with
+      | .error e => some s!"(err {e.pyClass})"
+      | .ok ρ' =>
+        some ("(ok " ++ " ".intercalate ((dedupSigs ρ'.sigs).map (fun p => s!"({p.1} {p.2})")) ++ ")")
+  | [.atom "nbits", v] => do some s!"int {nbitsInt (← v.int?)}"
+  | [.atom "idxw", w] => do some s!"int {idxW (← w.nat?)}"
+  | [.atom "range", a, b, c] => do
+      let a ← a.int?; let b ← b.int?; let c ← c.int?
+      some s!"({" ".intercalate ((pyRange a b c).map toString)}) {loopWidth a b c}"
+  | [.atom "iop", .atom op, l, r] => do
+      match intBin (← op? op) (← l.int?) (← r.int?) with
+      | .ok v => some s!"int {v}"
+      | .error .zerodiv => some "err ZeroDivisionError"
+      | .error .negshift => some "err ValueError:negshift"
+  | _ => none
 
 end PV.Driver.Tc
